@@ -87,6 +87,9 @@ View == <<local, selfSeq, state, heard, agg, timer, out, missed, nev>>
 Nodes2 == <<"self", "n1">>
 Nodes3 == <<"self", "n1", "n2">>
 Nodes5 == <<"self", "n1", "n2", "n3", "n4">>
+\* a peer of the instance under test (loop-back check): it knows that instance as node "a"
+Nodes4 == <<"self", "n1", "n2", "a">>
+Nodes6 == <<"self", "n1", "n2", "n3", "n4", "a">>
 
 Nodes == { NodeOrder[i] : i \in 1..Len(NodeOrder) }
 Self == NodeOrder[1]
@@ -391,6 +394,17 @@ OutdatedStartsSuppression ==
 EmitsOnlyLocal ==
   [][ /\ last'.a = "TimerFire" => (out' = <<>> \/ out' = <<local'>>)
       /\ (last'.a = "Tick" \/ (IsRecv /\ ~CbPub)) => out' = <<>> ]_vars
+
+-----------------------------------------------------------------------------
+(* Two more observables of a step, defined from the model's own variables (SvsTrace and the replay
+   compare them with what the executor saw):
+   PublishedSeqs  the values new_data() returned during the step - applications name their data by
+                  them, so they must be the sequence numbers the vector announces: selfSeq+1 .. selfSeq'
+   CallbackSaw    local_sv as an application sees it inside on_missing_data: the received vector is
+                  merged completely before the callback fires "for that vector" (the own entry still
+                  has its old value: publications made inside the callback come after)            *)
+PublishedSeqs == [i \in 1..(selfSeq' - selfSeq) |-> selfSeq + i]
+CallbackSaw == IF missed' = 1 THEN <<[local' EXCEPT ![Self] = selfSeq]>> ELSE <<>>
 
 -----------------------------------------------------------------------------
 (* Vacuity witnesses. The situations the properties talk about must occur; because the properties
